@@ -8,7 +8,7 @@ Lemma inv_cstep s : Inv s -> cpcf s <> CDone -> Inv (fst (cstep s)).
 Proof.
   intros I E. destruct (alive_creator s (proj1 I) E) as (A & B). pose proof I as I0. open_inv I.
   specialize (Irc A).
-  unfold cstep. destruct (cpcf s) as [| | |r e| | |k| | |] eqn:C; cbn [fst]; try congruence.
+  unfold cstep. destruct (cpcf s) as [| | |r e| | |k| | | |] eqn:C; cbn [fst]; try congruence.
   - (* CClaim *)
     destruct (mode s) eqn:M; pre; mk_inv; go.
   - (* CDtor *)
@@ -42,5 +42,12 @@ Proof.
     pre; mk_inv; go.
   - (* CGate2 *)
     pre; mk_inv; go.
+  - (* CGiveE *)
+    destruct (give_early (users s)) as [us|] eqn:G.
+    + destruct (give_early_spec _ _ G) as (j & u & Hj & Hu & ->).
+      rewrite add_ref_alive by exact A.
+      pose proof (sumu_set_nth (users s) j u (set_upc u UWait1) Hj) as SU. rewrite Hu in SU. cbn [upcf set_upc upc_handles] in SU.
+      pre; mk_inv; go.
+    + pre; mk_inv; go.
 Qed.
 
